@@ -48,6 +48,7 @@ func (o *WorkerOut) Progress(idx int64) {
 	o.w.Flush()
 	o.mu.Unlock()
 }
+
 // ProgressCounts also reports cumulative counts so that they survive a crash of the worker.
 func (o *WorkerOut) ProgressCounts(idx, evals, distinct int64) {
 	o.mu.Lock()
